@@ -184,7 +184,9 @@ func (f *Frame) Row(r int) string {
 		if c > 0 {
 			s += "|"
 		}
-		s += f.Cols[c][r]
+		if r < len(f.Cols[c]) {
+			s += f.Cols[c][r]
+		}
 	}
 	return s
 }
@@ -192,7 +194,7 @@ func (f *Frame) Row(r int) string {
 // Col returns the cells of the named column, or nil.
 func (f *Frame) Col(name string) []string {
 	for i, n := range f.Names {
-		if n == name {
+		if n == name && i < len(f.Cols) {
 			return f.Cols[i]
 		}
 	}
